@@ -43,7 +43,7 @@ pub struct GenOpts {
     pub vmul: i64,
     /// upper bound of single amounts, in kWh
     pub max: f64,
-    /// allow electricity as cogeneration input (nonsensical physically; excluded from perimeter checks)
+    /// allow electricity as cogeneration input (physically meaningless, accepted by the parser)
     pub el_cogen_input: bool,
     /// allow the two on-site carriers (ambient heat, solar thermal) as cogeneration input
     pub onsite_cogen_fuel: bool,
@@ -68,7 +68,7 @@ impl Default for GenOpts {
             hostile_comments: false,
             vmul: 1,
             max: 400.0,
-            el_cogen_input: false,
+            el_cogen_input: true,
             onsite_cogen_fuel: true,
             meta: false,
         }
